@@ -1,5 +1,29 @@
 """Runtime-contract-check programs (run against the real code through a #[cfg(test)] overlay)."""
 CORE = 'harper-core'
+S = 'harper-core/src/'
 RAC = {
-    'remove_indices': dict(crate=CORE, attach='harper-core/src/vec_ext.rs', file='vec_ext.rs', test='rac_remove_indices', function='VecExt::remove_indices'),
+    'remove_indices': dict(crate=CORE, attach=S + 'vec_ext.rs', file='vec_ext.rs', test='rac_remove_indices', function='VecExt::remove_indices'),
+    'suggestion_apply': dict(crate=CORE, attach=S + 'linting/suggestion.rs', file='suggestion.rs', test='rac_suggestion_apply', function='Suggestion::apply'),
+    'remove_overlaps': dict(crate=CORE, attach=S + 'lib.rs', file='overlaps.rs', test='rac_remove_overlaps', function='remove_overlaps'),
+    'edit_distance': dict(crate=CORE, attach=S + 'edit_distance.rs', file='edit_distance.rs', test='rac_edit_distance', function='edit_distance_min_alloc'),
+    'lexers': dict(crate=CORE, attach=S + 'lexing/mod.rs', file='lexing.rs', test='rac_lexers', function='lex_*'),
+    'plain_english_tiles': dict(crate=CORE, attach=S + 'lexing/mod.rs', file='lexing.rs', test='rac_plain_english_tiles', function='PlainEnglish::parse'),
+    'pattern_contract': dict(crate=CORE, attach=S + 'linting/pattern_linter.rs', file='patterns.rs', test='rac_pattern_contract', function='Pattern::matches'),
 }
+# Verus piece name -> runtime contract checks that exercise the same clause on the real code
+RAC_FOR_FUNCTION = {
+    'Suggestion::apply': ['suggestion_apply'],
+    'remove_overlaps': ['remove_overlaps'],
+    'Vec::remove_indices': ['remove_indices'],
+    'edit_distance_min_alloc': ['edit_distance'],
+    'edit_distance': ['edit_distance'],
+    'PlainEnglish::parse': ['plain_english_tiles', 'lexers'],
+    'lex_token': ['lexers', 'plain_english_tiles'],
+    'run_on_chunk': ['pattern_contract'],
+    'P::find_all_matches': ['pattern_contract'],
+}
+for _f in ('lex_regexish', 'lex_long_decade', 'lex_plural_digit', 'lex_quote', 'lex_punctuation', 'lex_catch', 'lex_word'):
+    RAC_FOR_FUNCTION[_f] = ['lexers', 'plain_english_tiles']
+for _t in ('Invert', 'SequencePattern', 'RepeatingPattern', 'EitherPattern', 'All', 'AnyPattern', 'ConsumesRemainingPattern', 'NominalPhrase',
+           'ExactPhrase', 'IndefiniteArticle', 'PatternMap'):
+    RAC_FOR_FUNCTION[_t + '::matches'] = ['pattern_contract']
